@@ -152,6 +152,33 @@ def fill_writes(repo: Repo, cells: list[Cell]) -> None:
                 for t in ast.walk(n.target if not isinstance(n, ast.Assign) else ast.Tuple(elts=n.targets, ctx=ast.Store())):
                     if isinstance(t, ast.Name) and isinstance(t.ctx, ast.Store) and t.id not in globals_declared:
                         local_names.add(t.id)
+        # class cells: self.attr / Cls.attr / cls.attr
+        aliases: dict[str, Cell] = {}
+
+        def cls_pred(e: ast.AST, f: Func = f, aliases: dict[str, Cell] = aliases) -> Cell | None:
+            if isinstance(e, ast.Name) and e.id in aliases:
+                return aliases[e.id]
+            if isinstance(e, ast.Attribute) and isinstance(e.value, ast.Name):
+                if e.value.id in ("self", "cls") and f.cls is not None:
+                    for k in repo.mro(f.cls):
+                        if (k.qual, e.attr) in cls_cells:
+                            return cls_cells[(k.qual, e.attr)]
+                else:
+                    r = repo.resolve(f.mod, e.value.id)
+                    if r and r[0] == "class" and (r[1].qual, e.attr) in cls_cells:  # type: ignore[union-attr]
+                        return cls_cells[(r[1].qual, e.attr)]  # type: ignore[union-attr]
+            elif isinstance(e, ast.Attribute) and isinstance(e.value, ast.Attribute):
+                # self.decompiler.<attr>
+                cands = by_cls_attr.get(e.attr, [])
+                if len(cands) == 1:
+                    return cands[0]
+            return None
+        # local aliases of class-level cells: `table = cls._table` followed by `table[k] = v` writes the shared cell
+        for n in walk_no_nested(f.node):
+            if isinstance(n, ast.Assign) and len(n.targets) == 1 and isinstance(n.targets[0], ast.Name) and isinstance(n.value, ast.Attribute):
+                c0 = cls_pred(n.value)
+                if c0 is not None:
+                    aliases[n.targets[0].id] = c0
         for n in walk_no_nested(f.node):
             # module cells
             site = _mutation_of(n, lambda e: isinstance(e, (ast.Name, ast.Attribute)) and not (isinstance(e, ast.Name) and e.id in local_names)
@@ -174,31 +201,10 @@ def fill_writes(repo: Repo, cells: list[Cell]) -> None:
                 c = mod_pred(n)
                 if c is not None:
                     c.runtime_reads.append((f, n))
-            # class cells: self.attr / Cls.attr / cls.attr
-            def cls_pred(e: ast.AST, f: Func = f) -> Cell | None:
-                if isinstance(e, ast.Attribute) and isinstance(e.value, ast.Name):
-                    if e.value.id in ("self", "cls") and f.cls is not None:
-                        for k in repo.mro(f.cls):
-                            if (k.qual, e.attr) in cls_cells:
-                                return cls_cells[(k.qual, e.attr)]
-                    else:
-                        r = repo.resolve(f.mod, e.value.id)
-                        if r and r[0] == "class" and (r[1].qual, e.attr) in cls_cells:  # type: ignore[union-attr]
-                            return cls_cells[(r[1].qual, e.attr)]  # type: ignore[union-attr]
-                    # decompiler.attr style access from handlers
-                    for c in by_cls_attr.get(e.attr, []):
-                        if e.value.id not in ("self", "cls") or True:
-                            pass
-                elif isinstance(e, ast.Attribute) and isinstance(e.value, ast.Attribute):
-                    # self.decompiler.<attr>
-                    cands = by_cls_attr.get(e.attr, [])
-                    if len(cands) == 1:
-                        return cands[0]
-                return None
             site = _mutation_of(n, lambda e: cls_pred(e) is not None)
             if site is not None:
                 for e in ast.walk(n):
-                    c = cls_pred(e) if isinstance(e, ast.Attribute) else None
+                    c = cls_pred(e) if isinstance(e, (ast.Attribute, ast.Name)) else None
                     if c is not None:
                         c.runtime_writes.append((f, n))
                         break
